@@ -70,7 +70,9 @@ def run_tlc(
     if scratch is None:
         scratch = scratch_dir(module)
     cfg = cfg or module
-    cmd = ["java", "-XX:+UseParallelGC", "-Xmx12g"]
+    os.makedirs(os.path.join(scratch, "jtmp"), exist_ok=True)
+    # TLC unpacks helper files into java.io.tmpdir and leaves them behind: keep them in the scratch directory (removed below)
+    cmd = ["java", "-XX:+UseParallelGC", "-Xmx12g", "-Djava.io.tmpdir=" + os.path.join(scratch, "jtmp")]
     cmd += java_opts or []
     cmd += ["-cp", JAR, "tlc2.TLC", "-workers", str(workers), "-metadir", os.path.join(scratch, "meta"),
             "-noGenerateSpecTE", "-config", os.path.join(SPEC_DIR, cfg + ".cfg")]
@@ -123,6 +125,7 @@ def run_tlc(
             shutil.rmtree(scratch, ignore_errors=True)
         raise MachineryError(f"TLC failed on {module}/{cfg} (rc={p.returncode}):\n{tail}")
     shutil.rmtree(os.path.join(scratch, "meta"), ignore_errors=True)
+    shutil.rmtree(os.path.join(scratch, "jtmp"), ignore_errors=True)
     if own and not dump_dot:
         shutil.rmtree(scratch, ignore_errors=True)
     return res
